@@ -55,12 +55,12 @@ impl<P: SingleObjectiveProblem> Component<P> for ExponentialAnnealingAcceptance 
         let mut populations = state.populations_mut();
 
         let o_current = populations
-            .peek(0)
+            .peek(1)
             .first()
             .wrap_err("current solution is missing")?
             .objective();
         let o_candidate = populations
-            .peek(1)
+            .peek(0)
             .first()
             .wrap_err("candidate solution is missing")?
             .objective();
@@ -68,7 +68,7 @@ impl<P: SingleObjectiveProblem> Component<P> for ExponentialAnnealingAcceptance 
         let t = state.get_value::<Temperature>();
         let p = ((o_current.value() - o_candidate.value()) / t).exp();
 
-        if o_candidate < o_current || state.random_mut().gen::<f64>() < p {
+        if o_candidate <= o_current || state.random_mut().gen::<f64>() < p {
             let candidate = populations.pop();
             populations.pop();
             populations.push(candidate);
